@@ -456,3 +456,59 @@ def exec_under(stmts, env, target):
         return may, must, True
     m = run(stmts)
     return m[0], m[1]
+
+
+def loop_carried_flags(fnode):
+    """[(outer loop, inner loop, var)]: a flag that is tested and re-assigned a constant inside an inner loop, but whose
+    (constant) initialisation is outside the outer loop and not repeated in the outer loop's body: its meaning
+    ("first item", "found") then spans all iterations of the outer loop instead of one"""
+    out = []
+
+    def const_assign(s_, v=None):
+        return isinstance(s_, ast.Assign) and len(s_.targets) == 1 and isinstance(s_.targets[0], ast.Name) \
+            and isinstance(s_.value, ast.Constant) and (v is None or s_.targets[0].id == v)
+    for L in [x for x in ast.walk(fnode) if isinstance(x, (ast.For, ast.While))]:
+        inner = [m for s_ in L.body for m in ast.walk(s_) if isinstance(m, (ast.For, ast.While))]
+        for M in inner:
+            tested = set()
+            for n in ast.walk(M):
+                if isinstance(n, ast.If):
+                    t = n.test
+                    if isinstance(t, ast.UnaryOp) and isinstance(t.op, ast.Not):
+                        t = t.operand
+                    if isinstance(t, ast.Name):
+                        tested.add(t.id)
+            for v in tested:
+                sets_in_M = [n for n in ast.walk(M) if const_assign(n, v)]
+                if not sets_in_M:
+                    continue
+                # initialised (anywhere) in L's body outside M?
+                reinit = False
+                for s_ in L.body:
+                    for n in ast.walk(s_):
+                        if n is M:
+                            continue
+                        if isinstance(n, ast.Assign) and any(isinstance(t, ast.Name) and t.id == v for t in n.targets) \
+                                and not any(n is x for x in ast.walk(M)):
+                            reinit = True
+                out.append((L, M, v, reinit))
+    return out
+
+
+POSITIVE_EXAMPLES['loop_carried_flags'] = """
+def f(dists, inds):
+    first = True
+    for dist in dists:
+        for i in dist:
+            if first:
+                first = False
+                build(i)
+"""
+_self_test_base2 = self_test
+
+
+def self_test():  # noqa: F811
+    ok = _self_test_base2()
+    t = ast.parse(POSITIVE_EXAMPLES['loop_carried_flags']).body[0]
+    ok['loop_carried_flags'] = any(not r for *_x, r in loop_carried_flags(t))
+    return ok
